@@ -47,7 +47,9 @@ func (p *c16) Init(tier string, seed int64) {
 	}
 	// iteration zoo: containers + scalars + generated lengths 0..8 through 0..2 pointer levels
 	p.iterVals = append(append([]gen.Named{}, gen.Containers()...), gen.Scalars()...)
-	for n := 0; n <= 8; n++ {
+	// 0..8 elements, and lengths around the sizes at which counters of one and two bytes, a thousand and a
+	// buffer of 4096 run out
+	for _, n := range []int{0, 1, 2, 3, 4, 5, 6, 7, 8, 64, 65, 127, 128, 129, 255, 256, 257, 1000, 1001, 1024, 4097, 65537} {
 		sl := make([]int, n)
 		vs := make([]stick.Value, n)
 		m := map[string]int{}
@@ -60,7 +62,10 @@ func (p *c16) Init(tier string, seed int64) {
 		}
 		psl := &sl
 		p.iterVals = append(p.iterVals, gen.N(fmt.Sprintf("[]int len %d", n), sl), gen.N(fmt.Sprintf("*[]int len %d", n), psl), gen.N(fmt.Sprintf("**[]int len %d", n), &psl),
-			gen.N(fmt.Sprintf("[]Value len %d", n), vs), gen.N(fmt.Sprintf("map[string]int len %d", n), m), gen.N(fmt.Sprintf("*map[int]string len %d", n), &mi))
+			gen.N(fmt.Sprintf("[]Value len %d", n), vs))
+		if n <= 1100 { // the oracle matches every visit of a map against the map: quadratic
+			p.iterVals = append(p.iterVals, gen.N(fmt.Sprintf("map[string]int len %d", n), m), gen.N(fmt.Sprintf("*map[int]string len %d", n), &mi))
+		}
 	}
 	arr := [5]string{"a", "b", "c", "d", "e"}
 	p.iterVals = append(p.iterVals, gen.N("[5]string", arr), gen.N("*[5]string", &arr))
